@@ -62,6 +62,11 @@ def run(rep, tier):
                     check_ctx(rep, db, f, inst); cnt("ctx")
             except Inconclusive as ex:
                 rep.inconclusive("R-C12", site(f), str(ex), inst)
+    # the per-thread context (executing sandbox, last slot) must be ONE object per thread for the whole program
+    from .c18 import check_per_tu_state
+    from ..report import RuleView
+    for db in dbs:
+        check_per_tu_state(RuleView(rep, {"R-C18-statics": "R-C12-slots"}), db)
     floors = {"interceptor": 30, "types": 30, "reg": 8, "tramp": 8, "getexec": 4, "unreg": 4, "ctx": 20}
     for k, v in floors.items():
         rep.require(n.get(k, 0) >= v, "only %d instances for rule group '%s' (floor %d)" % (n.get(k, 0), k, v))
